@@ -204,6 +204,7 @@ type cluster struct {
 	// ledger
 	written     map[int64][]byte // leader sequence -> bytes as appended (of the leader's current log history)
 	nextMsg     int64
+	logLost     bool  // a follower's log was lost or the leader's tail was cut at some point of the history
 	lostFrom    int64 // leader positions >= lostFrom were destroyed by a tail loss (exempt until re-established)
 	prevAck     int64
 	resetHW     bool
@@ -556,17 +557,16 @@ func (cl *cluster) startNode(id int) error {
 			startErr = err
 		}
 		if id == leaderID && startErr == nil {
+			// a node that starts on an existing log has what Recovery() built - the storage runtime does nothing else;
+			// replicas are (re)built by the next write stream (openWriteStream), as app/storage/rpc's write handler does
+			hadLog := fileExists(partDir(n.dir))
 			p, err := n.walMgr.GetOrCreateLog(dbName).GetOrCreatePartition(0, familyTime, leaderID)
 			if err != nil {
 				startErr = err
 			} else {
 				n.part = p
-				replicas := []models.NodeID{leaderID, followerID}
-				if cl.third != 0 {
-					replicas = append(replicas, thirdID)
-				}
-				if err := p.BuildReplicaForLeader(leaderID, replicas); err != nil {
-					startErr = err
+				if !hadLog {
+					startErr = cl.openWriteStream(n)
 				}
 			}
 		}
@@ -577,6 +577,15 @@ func (cl *cluster) startNode(id int) error {
 }
 
 // stopNode: mode 0 = clean stop, 1 = process death.
+// openWriteStream: what the storage node's write handler does when a broker opens a write stream for the family.
+func (cl *cluster) openWriteStream(l *node) error {
+	replicas := []models.NodeID{leaderID, followerID}
+	if cl.third != 0 {
+		replicas = append(replicas, thirdID)
+	}
+	return l.part.BuildReplicaForLeader(leaderID, replicas)
+}
+
 func (cl *cluster) stopNode(id int, clean bool) {
 	n := cl.nodes[id]
 	if n == nil || !n.alive {
@@ -932,6 +941,10 @@ func (H) Run(c *core.RunCtx) {
 			if !l.alive || l.part == nil {
 				continue
 			}
+			if err := cl.openWriteStream(l); err != nil {
+				c.Anomaly("BuildReplicaForLeader: %v", err)
+				return
+			}
 			for i := int64(0); i < op.A; i++ {
 				cl.nextMsg++
 				m := msgBytes(cl.nextMsg, int(op.B))
@@ -950,6 +963,7 @@ func (H) Run(c *core.RunCtx) {
 			cl.stopNode(followerID, op.A == 0)
 			if op.A == 2 {
 				sim.Fault("follower-log-lost")
+				cl.logLost = true
 				_ = os.RemoveAll(filepath.Join(f.dir, "wal"))
 			}
 			simrt.Sleep(5 * time.Millisecond)
@@ -1000,6 +1014,7 @@ func (H) Run(c *core.RunCtx) {
 			cl.stopNode(leaderID, op.A == 0)
 			if op.A == 2 && snapDir != "" {
 				sim.Fault("leader-tail-lost")
+				cl.logLost = true
 				_ = os.RemoveAll(filepath.Join(l.dir, "wal"))
 				if out, err := exec.Command("cp", "-a", "--sparse=always", snapDir, filepath.Join(l.dir, "wal")).CombinedOutput(); err != nil {
 					c.Anomaly("cp: %v %s", err, out)
@@ -1055,13 +1070,25 @@ func (H) Run(c *core.RunCtx) {
 	cl.notify(followerID, models.NodeOnline)
 	// let whatever is pending settle (not judged: a follower that lost its log after acknowledging
 	// everything is only re-based by the next handshake, which needs something to send)
-	cl.awaitCaughtUp(true)
+	if !cl.awaitCaughtUp(true) && !cl.logLost {
+		// nothing was destroyed in this history (no follower log lost, no leader tail lost): what the follower lacks
+		// and the leader still holds must arrive without another write - a leader that restarted has nothing but
+		// what its recovery built
+		sim.Probe("catch-up-without-a-write-judged")
+		if !cl.awaitCaughtUp(false) {
+			return
+		}
+	}
 	cl.check("after settling")
 	if c.Violated() {
 		return
 	}
 	// an append after the last fault must reach the follower, at the leader's position
 	l := cl.nodes[leaderID]
+	if err := cl.openWriteStream(l); err != nil {
+		c.Anomaly("BuildReplicaForLeader: %v", err)
+		return
+	}
 	for round := 0; round < 2; round++ {
 		cl.nextMsg++
 		m := msgBytes(cl.nextMsg, 40)
